@@ -153,7 +153,7 @@ struct TcpEngine : Engine {
         c.data[0] = wl.bytes(l0); c.data[1] = wl.bytes(l1);
         c.isn[0] = pick_isn(cfg, l0); c.isn[1] = pick_isn(cfg, l1);
         for (int s = 0; s < 2; ++s) { c.mss[s] = (int)cfg.small(1, 1460); if (c.data[s].size() / c.mss[s] > 300) c.mss[s] = (int)(c.data[s].size() / 300 + 1); c.wnd[s] = c.mss[s] * (int)cfg.range(1, 10); }
-        c.sack = cfg.chance(0.7); c.tsopt = cfg.chance(0.2); c.fin_with_data = cfg.chance(0.3);
+        c.sack = cfg.chance(0.7); c.tsopt = cfg.chance(0.2); c.fin_with_data = cfg.chance(0.3); { Rng sa = cfg.fork("sackasym"); c.sack_asym = sa.chance(0.2) ? (int)sa.range(1, 2) : 0; }
         return c;
     }
 
@@ -411,7 +411,7 @@ struct TcpEngine : Engine {
         Plan p; p.engine = "tcp"; p.mode = "ack"; p.seed = seed; p.cfg.set("property", "C19");
         ConnSpec c = basic_conn(cfg, wl, tier, true, 3000);
         if (c.data[1].empty() && cfg.chance(0.5)) { c.data[1] = wl.bytes((size_t)cfg.small(1, 2000)); c.isn[1] = pick_isn(cfg, c.data[1].size()); }
-        c.sack = true; c.handshake = cfg.chance(0.5); c.close = cfg.chance(0.3) ? 1 : 0;
+        c.sack = true; c.handshake = cfg.chance(0.5); c.close = cfg.chance(0.3) ? 1 : 0; { Rng sa = root.fork("sackasym"); c.sack_asym = sa.chance(0.3) ? (int)sa.range(1, 2) : 0; }
         // keep holes open: small mss relative to window, lossy data path
         for (int s = 0; s < 2; ++s) { c.mss[s] = (int)cfg.small(1, 200); if (c.data[s].size() / c.mss[s] > 300) c.mss[s] = (int)(c.data[s].size() / 300 + 1); c.wnd[s] = c.mss[s] * (int)cfg.range(3, 16); }
         World w; w.net_rng = root.fork("net");
